@@ -2,6 +2,7 @@ package main
 
 import (
 	"fmt"
+	"io/ioutil"
 	"os"
 	"path/filepath"
 	"strings"
@@ -327,6 +328,8 @@ func checkC10(w *Worker) {
 		}
 	}
 	dirNames = append(dirNames, "alink")
+	// ... and directories that hold files with the default names: the working directory itself, a data directory
+	dirNames = append(dirNames, ".", "data", "data/")
 	w.Explore("directory-and-long-lines", ExploreOpts{ShardDepth: 2}, func(x *Exec) {
 		ci := x.Choose(len(c10Cmds)+1, "input:command") // last: stats
 		kind := x.Choose(6, "fault:kind")               // 0: directory as log, 1: directory as book, 2..5: long line lengths
@@ -343,6 +346,9 @@ func checkC10(w *Worker) {
 		cname := strings.Join(cmd.Args, " ")
 		os.MkdirAll(filepath.Join(theApp.dir, "adir"), 0o755)
 		os.Symlink("adir", filepath.Join(theApp.dir, "alink"))
+		os.MkdirAll(filepath.Join(theApp.dir, "data"), 0o755)
+		ioutil.WriteFile(filepath.Join(theApp.dir, "data", "food.yaml"), []byte(files[1]), 0o644)
+		ioutil.WriteFile(filepath.Join(theApp.dir, "data", "log.yaml"), []byte(logs[1]), 0o644)
 		fl := map[string]string{"food.yaml": files[1], "log.yaml": logs[1]}
 		args := []string{"--no-color"}
 		switch kind {
